@@ -61,7 +61,14 @@ def print_sheet(r, rules):
             x["close"] = simple("}")
             emit_free(x["close"])
         elif x["t"] == "at":
-            x["kw"] = T("at", x["name"], "@" + x["name"])
+            # at-rule names are ASCII case-insensitive: spell some of them in upper / mixed case
+            sp = x["name"]
+            q = r.random()
+            if q < 0.08:
+                sp = sp.upper()
+            elif q < 0.14:
+                sp = sp.capitalize()
+            x["kw"] = T("at", sp, "@" + sp)
             emit(x["kw"])
             for t in x["pre"]:
                 emit(t)
@@ -118,7 +125,8 @@ def host_tokens(x):
 
 
 def import_tokens(x):
-    toks = [T("at", "import", "@import")]
+    sp = x.get("kw_spelling", "import")
+    toks = [T("at", sp, "@" + sp)]
     p = x["path"]
     if x["form"] == "string":
         toks.append(string(p, '"' if "'" in p else "'", ctx="prelude", ws=True))
@@ -133,6 +141,12 @@ def import_tokens(x):
             toks += [func("url", ctx="prelude", ws=True), string(p, '"' if "'" in p else "'", ctx="prelude"), simple(")", ctx="prelude")]
     x["cond_parts"] = []
     for kind, arg in x["conds"]:
+        if kind == "layer" and arg is None:
+            # the bare keyword: an anonymous layer
+            f = ident("layer", ctx="prelude", ws=True)
+            toks.append(f)
+            x["cond_parts"].append((f, None, None))
+            continue
         if kind == "layer":
             f = func("layer", ctx="prelude", ws=True)
             inner = []
@@ -151,12 +165,28 @@ def import_tokens(x):
     x["media_toks"] = []
     if m:
         mt = []
+        def paren():
+            return [T("(", None, "(", ctx="prelude", ws=True), ident("min-width", ctx="prelude"), simple(":", ctx="prelude"), T("dim", None, "10px", num=10.0, int=10, unit="px", ctx="prelude", ws=True), simple(")", ctx="prelude")]
+
+        def word(w, must=False):
+            return ident(w, ctx="prelude", ws=True, wsmean="must" if must else "free")
+
         if m in ("screen", "screen-and-paren"):
-            mt.append(ident("screen", ctx="prelude", ws=True))
-        if m == "screen-and-paren":
-            mt.append(ident("and", ctx="prelude", ws=True))
-        if m in ("paren", "screen-and-paren"):
-            mt += [T("(", None, "(", ctx="prelude", ws=True), ident("min-width", ctx="prelude"), simple(":", ctx="prelude"), T("dim", None, "10px", num=10.0, int=10, unit="px", ctx="prelude", ws=True), simple(")", ctx="prelude")]
+            mt.append(word("screen"))
+        if m in ("all", "all-and-paren"):
+            mt.append(word("all"))
+        if m == "not-all":
+            mt += [word("not"), word("all")]
+        if m == "only-screen-and-paren":
+            mt += [word("only"), word("screen")]
+        if m == "list":
+            mt += [word("print"), simple(",", ctx="prelude"), word("screen")]
+        if m == "paren-and-paren":
+            mt += paren()
+        if m in ("screen-and-paren", "all-and-paren", "only-screen-and-paren", "paren-and-paren"):
+            mt.append(word("and"))
+        if m in ("paren", "screen-and-paren", "all-and-paren", "only-screen-and-paren", "paren-and-paren"):
+            mt += paren()
         x["media_toks"] = mt
         toks += mt
     return toks
@@ -234,7 +264,7 @@ def expected(rules, opts):
                 conv(t, out, False)
 
     def at_prelude(x, out):
-        out.append(E("at", x["name"], src=x["kw"]))
+        out.append(E("at", x["kw"].v, src=x["kw"]))
         for t in x["pre"]:
             conv(t, out, True)
 
@@ -317,6 +347,10 @@ def expected(rules, opts):
         first_index = len(out)
         for f, inner, close in x["cond_parts"]:
             out.append(E("at", f.v, src=f, synth=True))
+            if inner is None:
+                out.append(E("{", src=f, synth=True))
+                closes += 1
+                continue
             if f.v == "supports":
                 out.append(E("(", src=f, synth=True))
             for t in inner:
